@@ -666,6 +666,11 @@ pub fn build_default_config(conf: &crate::config::Config, request: &DHCPRequest)
                 use crate::config::Match as _;
                 use crate::config::PrefixOps as _;
                 let subnet = erbium_net::Ipv4Subnet::new(p4.network(), p4.prefixlen).ok()?;
+                if p4.prefixlen < 8 {
+                    /* More than 2^24 addresses can't sensibly be enumerated as a pool. */
+                    log::debug!("{}: too large to be a DHCP pool, ignoring", subnet);
+                    return None;
+                }
                 /* Every host address: all but the first (network) and last (broadcast). */
                 let last_host = (1_u64 << (32 - u32::from(p4.prefixlen))).saturating_sub(2) as u32;
                 let mut ret = config::Policy {
